@@ -685,7 +685,8 @@ def malformed(rng):
         e["ph"] = rng.choice(["b", "e", "B", "i"])
     elif k == "bothpeer":
         a["Peer"] = "1"
-        a["Peers"] = "0,2"
+        # the runtime's own string, or the list that --comm_summarize_seq writes (the union of the parts' peers)
+        a["Peers"] = rng.choice(["0,2", ["0", "2"], ["1", "2", "0"], []])
     elif k == "recvname":
         a.pop("Peer", None)
         a.pop("Peers", None)
